@@ -1502,6 +1502,10 @@ theorem published_solid_rows_2D (p : Par ℝ) (f : Flags) (T0C : ℝ) (prof : Li
 theorem hlen_run2D (oc : OpCond ℝ) (dt : ℝ) : (profile oc dt).length ≤ nSteps oc.t_tot dt := by
   rw [Snow.C05.profile_length]
 
+/-- … with equality: `tempProfile(dt)` has exactly `Nt_exp` samples -/
+theorem len_run2D (oc : OpCond ℝ) (dt : ℝ) : (profile oc dt).length = nSteps oc.t_tot dt :=
+  Snow.C05.profile_length oc dt
+
 open Snow.S2D in
 /-- **history_aligned for the 2D run itself** (no side hypothesis) -/
 theorem history_aligned_run2D (p : Par ℝ) (f : Flags) (oc : OpCond ℝ) (Frand : ℝ) (cn : Option ℝ) (r : Result ℝ)
@@ -1596,5 +1600,51 @@ theorem asyncExc_isSome_iff {S H : Type} (reps : List (RunOut S H)) :
     | some r' =>
       have := List.find?_some hf
       simpa using this
+
+
+/-! ### `0 ≤ dt` discharged from the constants -/
+
+open Snow.S2D in
+/-- the 2D time step `dt = (0.4/alpha_max)·dz²dr²/(dr²+dz²)` is non-negative when `alpha_max ≥ 0` -/
+theorem dt_grid2D_nonneg (p : Par ℝ) (f : Flags) (hα : 0 ≤ alphaMax p) : 0 ≤ (mkCtx p f).dt := by
+  simp only [mkCtx, S2D.dt, lit_real]
+  have e : ((4 : ℤ) : ℝ) / (10 : ℝ) ^ 1 = 4 / 10 := by norm_num
+  rw [e]
+  have h1 := mul_self_nonneg (dz p)
+  have h2 := mul_self_nonneg (dr p)
+  apply div_nonneg (mul_nonneg (div_nonneg (by norm_num) hα) (mul_nonneg h1 h2)) (add_nonneg h2 h1)
+
+open Snow.S2D in
+/-- **time axis non-decreasing for the 2D run itself** (`T0C := oc.start`, `profile := tempProfile(dt)`,
+`Nt_exp := ceil(t_tot/dt)+1` – the run `Snowing._run_2D` makes), the only hypothesis being `alpha_max ≥ 0` -/
+theorem time_nondecreasing_run2D_code (p : Par ℝ) (f : Flags) (hα : 0 ≤ alphaMax p) (oc : OpCond ℝ) (Frand : ℝ)
+    (cn : Option ℝ) (r : Result ℝ)
+    (h : run p f oc.start (profile oc (S2D.dt p)) (nSteps oc.t_tot (S2D.dt p)) Frand cn = .ok r) :
+    r.time.toList.Pairwise (· ≤ ·) :=
+  time_nondecreasing_run2D p f (dt_grid2D_nonneg p f hα) oc Frand cn r h
+
+open Snow.S2D in
+/-- `times_within_2D` with `0 ≤ dt` discharged -/
+theorem times_within_2D_code (p : Par ℝ) (f : Flags) (hα : 0 ≤ alphaMax p) (T0C : ℝ) (prof : List ℝ)
+    (NtExp : ℕ) (Frand : ℝ) (cn : Option ℝ) (r : Result ℝ) (h : run p f T0C prof NtExp Frand cn = .ok r) :
+    r.iCool + r.iSol ≤ prof.length - 1 ∧ 0 ≤ r.tNuc ∧ 0 ≤ r.tSol ∧ r.tNuc ≤ r.tFr ∧
+      r.tFr ≤ (mkCtx p f).dt * ((prof.length - 1 : ℕ) : ℝ) / 60 :=
+  times_within_2D p f (dt_grid2D_nonneg p f hα) T0C prof NtExp Frand cn r h
+
+/-- `times_within_1D` with `0 ≤ dt` discharged (`alpha_max = lambda_i/(cp_i·rho_l) ≥ 0`) -/
+theorem times_within_1D_code (p : SnowIn ℝ) (Nz : ℕ) (old : Bool) (shelf : List ℝ) (iEnd iS : ℕ)
+    (hα : 0 ≤ p.const.lambda_i / (p.const.cp_i * p.const.rho_l))
+    (h1 : (run1DOn p Nz old shelf).NtCoolEnd = some iEnd) (h2 : (run1DOn p Nz old shelf).NtSolEnd = some iS) :
+    iEnd + iS ≤ shelf.length - 1 ∧
+      ∀ st, (run1DOn p Nz old shelf).stats = some st → ∀ a b, st.t_sol = some a → st.t_fr = some b →
+        0 ≤ st.t_nuc ∧ 0 ≤ a ∧ st.t_nuc ≤ b ∧
+          b ≤ (grid1D p Nz).dt * ((shelf.length - 1 : ℕ) : ℝ) / 60 :=
+  times_within_1D p Nz old shelf iEnd iS (dt_grid1D_nonneg p Nz hα) h1 h2
+
+/-- `time_nondecreasing_1D` for `run1D p` itself: no side hypothesis but `alpha_max ≥ 0` -/
+theorem time_nondecreasing_run1D (p : SnowIn ℝ) (hα : 0 ≤ p.const.lambda_i / (p.const.cp_i * p.const.rho_l))
+    (rows : Array (Row ℝ)) (h : (run1D p).hist = some rows) :
+    rows.toList.Pairwise (fun a b => a.time ≤ b.time) :=
+  time_nondecreasing_1D p NzCode false _ (hlen_run1D p NzCode) (dt_grid1D_nonneg p NzCode hα) rows h
 
 end Snow.C13
